@@ -1,3 +1,4 @@
+import Clover.Generated.Facts
 import Clover.Proofs.ScanExact
 import Clover.Proofs.RangeSem
 /-! # C17 — index range scans return exactly the in-range entries, in order
@@ -75,5 +76,19 @@ theorem isEmpty_model (hrs : Dom numOK r.start) (hre : Dom numOK r.stop) : r.isE
 /-- non-vacuity: a two-entry index (values 1 and 2, canonical ids) around which nothing is stored
     meets the hypotheses -/
 example : ∀ e ∈ ([] : KVS), ∀ t, lexLt e.1 (Keys.idxPrefix [0x61] [0x78] ++ t) = true := by simp
+
+end CV.Props.C17
+
+namespace CV.Props.C17
+
+/-- (facts, regenerated from the source on every run) **The decision logic the model transcribes is the
+    decision logic of the current source**: `Range.IsEmpty`, `Range.IsNil`, `Range.Intersect` — what `Range.isEmpty`, `Range.isNilR`, `Range.intersect` of the model transcribe.  The text is the functions' bodies with comments and layout
+    removed.  Any edit of these functions breaks this theorem at build time; the check then searches
+    with the property's own oracles for a failing input (and reports `no-failing-input-found` if the
+    edit was harmless: the model then has to be re-validated against the new text). -/
+theorem source_decision_logic : CV.Facts.logicC17 = [
+  "index.Range.Intersect: { intersection := &Range{ Start: r.Start, End: r.End, StartIncluded: r.StartIncluded, EndIncluded: r.EndIncluded, } res := internal.Compare(r2.Start, intersection.Start) if res > 0 { intersection.Start = r2.Start intersection.StartIncluded = r2.StartIncluded } else if res == 0 { intersection.StartIncluded = intersection.StartIncluded && r2.StartIncluded } else if intersection.Start == nil { intersection.Start = r2.Start intersection.StartIncluded = r2.StartIncluded } res = internal.Compare(r2.End, intersection.End) if res < 0 { intersection.End = r2.End intersection.EndIncluded = r2.EndIncluded } else if res == 0 { intersection.EndIncluded = intersection.EndIncluded && r2.EndIncluded } else if intersection.End == nil { intersection.End = r2.End intersection.EndIncluded = r2.EndIncluded } return intersection }", 
+  "index.Range.IsEmpty: { if (r.Start == nil && !r.StartIncluded && r.End != nil) || (r.End == nil && !r.EndIncluded && r.Start != nil) { return false } res := internal.Compare(r.Start, r.End) return (res > 0) || (res == 0 && !r.StartIncluded && !r.EndIncluded) }", 
+  "index.Range.IsNil: { return r.Start == nil && r.End == nil && r.StartIncluded && r.EndIncluded }"] := by rfl
 
 end CV.Props.C17
